@@ -49,7 +49,7 @@ func toOutcome(err error) outcome {
 
 func (c *clients) timeout(q *request) time.Duration {
 	if q.Follower {
-		return 8 * time.Second
+		return 4 * time.Second
 	}
 	return 20 * time.Second
 }
